@@ -21,6 +21,33 @@ type tdef struct {
 	pk      []string
 	autoInc bool
 	idx     []sqlgen.Index // secondary indexes
+	checks  []check        // named CHECK constraints
+}
+
+// check is the named constraint CHECK (col >= min).
+type check struct {
+	name string
+	col  string
+	min  int64
+}
+
+func (d *tdef) checkOn(col string) *check {
+	for i := range d.checks {
+		if d.checks[i].col == col {
+			return &d.checks[i]
+		}
+	}
+	return nil
+}
+
+// createSQL is the CREATE TABLE statement including the CHECK constraints.
+func (d *tdef) createSQL() string {
+	text := d.table().CreateSQL()
+	var cs strings.Builder
+	for _, c := range d.checks {
+		fmt.Fprintf(&cs, ", CONSTRAINT %s CHECK (%s >= %d)", c.name, c.col, c.min)
+	}
+	return strings.Replace(text, ", PRIMARY KEY", cs.String()+", PRIMARY KEY", 1)
 }
 
 func (d *tdef) col(name string) *sqlgen.Column {
@@ -77,7 +104,8 @@ func (d *tdef) colNames() []string {
 }
 
 func (d *tdef) with(f func(n *tdef)) *tdef {
-	n := &tdef{name: d.name, cols: append([]*sqlgen.Column(nil), d.cols...), pk: d.pk, autoInc: d.autoInc, idx: append([]sqlgen.Index(nil), d.idx...)}
+	n := &tdef{name: d.name, cols: append([]*sqlgen.Column(nil), d.cols...), pk: d.pk, autoInc: d.autoInc, idx: append([]sqlgen.Index(nil), d.idx...),
+		checks: append([]check(nil), d.checks...)}
 	f(n)
 	return n
 }
@@ -193,7 +221,8 @@ type wop struct {
 }
 
 type ddlop struct {
-	kind  string // "create-table" | "create-index" | "add-column"
+	kind  string // "create-table" | "create-index" | "add-column" | "drop-constraint"
+	name  string // drop-constraint
 	table string
 	def   *tdef // create-table
 	ix    sqlgen.Index
@@ -385,6 +414,9 @@ func (w *world) apply(s *txstate) {
 		case "add-column":
 			t := w.tabs[op.table]
 			t.def = t.def.with(func(n *tdef) { n.cols = append(n.cols, op.col) })
+		case "drop-constraint":
+			t := w.tabs[op.table]
+			t.def = t.def.with(func(n *tdef) { n.dropCheck(op.name) })
 		}
 	}
 	for _, op := range s.wlog {
@@ -487,4 +519,14 @@ func (q *query) diff(got, want *sqlgen.Result) string {
 		return sqlgen.DiffSeq(got, want)
 	}
 	return sqlgen.DiffMultiset(got, want)
+}
+
+func (d *tdef) dropCheck(name string) {
+	var kept []check
+	for _, c := range d.checks {
+		if c.name != name {
+			kept = append(kept, c)
+		}
+	}
+	d.checks = kept
 }
